@@ -255,6 +255,12 @@ type Peer struct {
 	Chunks [][]byte // what the library wrote before each answered step
 	gaveUp bool
 	calls  int
+	// Lenient makes the peer answer the current step even when what the library
+	// wrote is not the complete request the step waits for: a peer on a
+	// half-dead connection whose own view is that everything arrived (its
+	// answers were already on their way, or it does not depend on the request).
+	Lenient     bool
+	lenientUsed int
 	// Silent, when it returns true, makes the peer stay silent (the read
 	// blocks) instead of answering or giving up.
 	Silent func() bool
@@ -269,6 +275,10 @@ func NewPeer(steps ...Step) *Peer { return &Peer{steps: steps} }
 // GaveUp reports whether the peer ended its stream because the library asked
 // for input it had not earned.
 func (p *Peer) GaveUp() bool { p.mu.Lock(); defer p.mu.Unlock(); return p.gaveUp }
+
+// AnsweredUnearned is the number of steps a lenient peer answered without
+// having received the complete request.
+func (p *Peer) AnsweredUnearned() int { p.mu.Lock(); defer p.mu.Unlock(); return p.lenientUsed }
 
 // Done reports how many steps were answered.
 func (p *Peer) Done() int { p.mu.Lock(); defer p.mu.Unlock(); return p.i }
@@ -317,17 +327,19 @@ func (p *Peer) Script() bufconn.Script {
 			return nil, true
 		}
 		st := p.steps[p.i]
+		ok := false
 		if st.Match != nil {
-			if !st.Match(p.acc) {
-				p.gaveUp = true
-				return nil, true
-			}
+			ok = st.Match(p.acc)
 		} else {
 			names, complete := Units(p.acc)
-			if !complete || !sameNames(names, st.Want) {
+			ok = complete && sameNames(names, st.Want)
+		}
+		if !ok {
+			if !p.Lenient {
 				p.gaveUp = true
 				return nil, true
 			}
+			p.lenientUsed++
 		}
 		chunk := p.acc
 		p.acc = nil
@@ -415,11 +427,26 @@ func (l *Log) Negotiated() int {
 	return n
 }
 
+// ErrText returns err.Error(), surviving error values whose Error method
+// panics (a nil pointer of a type with a value-receiver Error method stored in
+// a non-nil error interface).
+func ErrText(err error) (s string, panicked bool) {
+	if err == nil {
+		return "", false
+	}
+	defer func() {
+		if v := recover(); v != nil {
+			s, panicked = fmt.Sprintf("(%T whose Error method panics: %v)", err, v), true
+		}
+	}()
+	return err.Error(), false
+}
+
 func errStr(err error) string {
 	if err == nil {
 		return ""
 	}
-	s := err.Error()
+	s, _ := ErrText(err)
 	if len(s) > 120 {
 		s = s[:120]
 	}
